@@ -1,2 +1,22 @@
 import FpgoVerif.Props.C16
 /-! `#print axioms` for every property theorem of C16; parsed by `check`. -/
+#print axioms FpgoVerif.C16.C16_workers
+#print axioms FpgoVerif.C16.C16_workers_bounds
+#print axioms FpgoVerif.C16.C16_invariant
+#print axioms FpgoVerif.C16.C16_result_ordered
+#print axioms FpgoVerif.C16.C16_result_random
+#print axioms FpgoVerif.C16.C16_once
+#print axioms FpgoVerif.C16.C16_once_anytime
+#print axioms FpgoVerif.C16.C16_applied_to_elements
+#print axioms FpgoVerif.C16.C16_conc
+#print axioms FpgoVerif.C16.C16_no_panic
+#print axioms FpgoVerif.C16.C16_returns_after_all
+#print axioms FpgoVerif.C16.C16_measure_decreases
+#print axioms FpgoVerif.C16.C16_run_bounded
+#print axioms FpgoVerif.C16.C16_no_deadlock
+#print axioms FpgoVerif.C16.C16_terminates
+#print axioms FpgoVerif.C16.C16_pmap_ordered
+#print axioms FpgoVerif.C16.C16_pmap_random
+#print axioms FpgoVerif.C16.C16_expected_obs
+#print axioms FpgoVerif.C16.C16_skeleton
+#print axioms FpgoVerif.C16.C16_driver_observable
